@@ -107,6 +107,23 @@ def Envelope.wf (U : Str → Option Str) : Envelope → Bool
        | none => true
        | some a => s.scheme == a.scheme)
 
+/-- the resource of a command is typed by its media type, or both are absent -/
+def Command.resWf (c : Command) : Bool :=
+  match c.resource, c.type with
+  | none, none => true
+  | some d, some t => t.wf && Doc.wf t d
+  | _, _ => false
+
+/-- what the *typed* decoders accept is a little more than `Envelope.wf`: a request may lack its
+`uri` and a response its `status` (the receive path could not tell their kind, the typed decoder is
+told it) -/
+def Envelope.wfT (U : Str → Option Str) : Envelope → Bool
+  | .request c =>
+    c.cmd.env.wf && commandMethods.contains c.cmd.method && c.cmd.resWf && optWf (fun u => U u == some u) c.uri
+  | .response c =>
+    c.cmd.env.wf && commandMethods.contains c.cmd.method && c.cmd.resWf && optWf Reason.wf c.reason
+  | e => e.wf U
+
 /-! ## normal form: the two things a Go value can hold that the wire cannot tell apart
 
 An empty non-nil map or slice is left out by `omitempty` exactly like a nil one, so it comes back
